@@ -72,7 +72,7 @@ def _schemas():
 
 
 MD_VARIANTS = ["empty", "none_raw", "permissive", "permissive_partial", "strict", "strict_mnvr", "struct",
-               "default_dated", "permissive_with_mnvr"]
+               "default_dated", "default_dated_extra", "permissive_with_mnvr"]
 
 
 def set_md_variant(table, variant, rng, default_key):
@@ -114,7 +114,42 @@ def set_md_variant(table, variant, rng, default_key):
         table.metadata_schema = sch
         table.packset_metadata([sch.validate_and_encode_row({"mn": float(i), "vr": 1.5}) for i in range(n)])
         return
+    if variant == "default_dated_extra":   # dated earlier, then the user added keys of their own (on some rows)
+        sch = S[default_key]
+        table.metadata_schema = sch
+        few = rng.random() < 0.5
+        rows = []
+        for i in range(n):
+            d = {"mn": float(i), "vr": 1.5}
+            if not few or rng.random() < 0.3 or i == 0:
+                d.update(name=f"user{i}", rsid=[int(rng.integers(0, 99))])
+            rows.append(sch.validate_and_encode_row(d))
+        table.packset_metadata(rows)
+        return
     raise ValueError(variant)
+
+
+def add_user_keys(ts, rng):
+    """After a dating: add keys of the user's own to node / mutation rows that live under tsdate's default
+    schemas (to all rows or to a few only). Returns (new ts, which tables were touched)."""
+    S = _schemas()
+    t = ts.dump_tables()
+    touched = []
+    for table, key, name in ((t.nodes, "node_default", "nodes"), (t.mutations, "mut_default", "mutations")):
+        if table.metadata_schema != S[key] or table.num_rows == 0:
+            continue
+        sch = table.metadata_schema
+        few = rng.random() < 0.5
+        rows = []
+        raw = [bytes(table.metadata[table.metadata_offset[i]:table.metadata_offset[i + 1]]) for i in range(table.num_rows)]
+        for i, b in enumerate(raw):
+            d = sch.decode_row(b) if len(b) else {}
+            if not few or rng.random() < 0.3 or i == 0:
+                d.update(name=f"{name}{i}", rsid=[int(rng.integers(0, 99))], note={"by": "user"})
+            rows.append(sch.validate_and_encode_row(d))
+        table.packset_metadata(rows)
+        touched.append(name + ("(few rows)" if few else "(all rows)"))
+    return t.tree_sequence(), touched
 
 
 def decorate(ts, rng, info, *, want_individuals=True, allow_migrations=True):
